@@ -135,7 +135,8 @@ func runCase(c *ev.Ctx, sp spec, r *rand.Rand) {
 	var cont pub.Container = splicer.VerifNew(pages)
 	pos := 0
 	start := uint(sp.Start)
-	for req := 0; req < 80; req++ {
+	maxReq := 80 + len(want) // every request but the listed ones asks for 4: room for the longest specs
+	for req := 0; req < maxReq; req++ {
 		n := 4
 		if req < len(sp.Requests) {
 			n = sp.Requests[req]
@@ -225,7 +226,7 @@ func runCase(c *ev.Ctx, sp spec, r *rand.Rand) {
 		}
 	}
 	if pos < len(want) {
-		fail("does-not-end", "80 requests delivered %d of %d items", pos, len(want))
+		fail("does-not-end", "%d requests delivered %d of %d items", maxReq, pos, len(want))
 	}
 }
 
@@ -465,6 +466,26 @@ func randomSpec(r *rand.Rand) spec {
 	sp.Requests = make([]int, nreq)
 	for i := range sp.Requests {
 		sp.Requests[i] = []int{1, 2, 3, 4, 5, 6, 11, 0, 1, 2}[r.Intn(10)]
+	}
+	if k > 0 && r.Intn(12) == 0 {
+		// long sources and requests larger than any batch size an implementation might pick (32, 64, 100, 128 ...)
+		for i := 0; i < 1+r.Intn(2) && i < k; i++ {
+			n := 70 + r.Intn(200)
+			ts := make([]int, n)
+			cur := 1000 + r.Intn(500)
+			for j := range ts {
+				cur -= r.Intn(3)
+				if cur < 1 {
+					cur = 1
+				}
+				ts[j] = cur
+			}
+			sp.Sources[r.Intn(k)] = ts
+		}
+		sp.Requests = nil
+		for i, m := 0, 1+r.Intn(4); i < m; i++ {
+			sp.Requests = append(sp.Requests, []int{33, 63, 64, 65, 100, 127, 129, 150, 257, 5}[r.Intn(10)])
+		}
 	}
 	if r.Intn(3) == 0 {
 		sp.Start = r.Intn(4)
